@@ -1105,10 +1105,30 @@ class Real:
         if op == "mut":
             self.mutate_kept(int(toks[1]), int(toks[2]))
             return "ok"
+        if op == "ghold":
+            # the GENERATOR form of the traversal named by the rest of the line is requested now and consumed by a later
+            # line (`for v in g:` after other statements): nothing is read before the first element is asked for
+            t = toks[1:]
+            via, res = self.filt2(self.pnat(t[5])), self.vfilt(self.pnat(t[6]))
+            fn = {"bft": breadthfirst.ibft, "dftr": depthfirst.idft_recursive, "dfti": depthfirst.idft_iterative}[t[0]]
+            kw = dict(direction_sensitive=int(t[3]), unknown_handling=int(t[4]), ff_via=via, ff_result=res)
+            held = []
+            for _ in range(2):
+                try:
+                    held.append(fn(self.pv(t[1]), self.pv(t[2]), **kw))
+                except Exception as exc:  # noqa: BLE001   (requesting a generator reads nothing, so it cannot fail)
+                    held.append(exc)
+            if not hasattr(self, "_held"):
+                self._held = {}
+            self._held[tuple(t[:7])] = (held, via, res)
+            return "ok"
         if op in ("bft", "dftr", "dfti"):
             uni, start = self.pv(toks[1]), self.pv(toks[2])
             d, u = int(toks[3]), int(toks[4])
             via, res = self.filt2(self.pnat(toks[5])), self.vfilt(self.pnat(toks[6]))
+            held = getattr(self, "_held", {}).pop(tuple(toks[:7]), None) if toks[7] == "gen" else None
+            if held:
+                held, via, res = held
             for f in (via, res):
                 if f is not None:
                     f.count, f.fault_at = 0, None
@@ -1119,11 +1139,17 @@ class Real:
                 out, twin = [], []
                 cap = 4 * (len(self.V) + 2) + 8
                 try:
-                    it = fn(uni, start, **kw)
+                    if held:
+                        # requested by an earlier `ghold` line
+                        if isinstance(held[0], Exception):
+                            raise held[0]
+                        it, it2 = held[0], (iter(()) if isinstance(held[1], Exception) else held[1])
+                    else:
+                        it = fn(uni, start, **kw)
                     # a SECOND generator of the same call is consumed in lock-step with the first
                     # (`zip(ibft(..), ibft(..))`): traversals in flight must not disturb one another
                     try:
-                        it2 = fn(uni, start, **kw)
+                        it2 = it2 if held else fn(uni, start, **kw)
                     except Exception:  # noqa: BLE001   (eager pre-flight failure: the first one raises it too)
                         it2 = iter(())
                     while len(out) <= cap:
